@@ -40,6 +40,33 @@ CHECKS.update({
          "Faults injected at the libc boundary (the real call is not made); EINTR excluded (std retries it).", "4/C11", "driver+iotrace"),
 })
 
+CHECKS.update({
+ "C07": ("exploration", "runtime monitor: real RecordWriter -> RecordReader round trips over the harness's in-memory block device at enumerated (start offset, length) pairs, plus traced through-files round trips across restarts",
+         "In-memory leg (hook H2): every case writes filler + entry + follower with the repository's writer and reads them back with its reader, also checking the reported byte counts against an independent recomputation; thorough enumerates every reachable start offset x boundary-relative length family. Through-files leg: 'align' histories whose payload sizes are solved from the traced write cursor, compared across restarts; the trace confirms which alignments were really hit.",
+         "Harness-side BlockWrite/BlockRead implementations; identity oracle; thorough in-memory sub-space is exhaustive, the rest sampled.", "4/C07", "driver+iotrace"),
+ "C12": ("fault_enumeration", "runtime monitor: crash images and single-frame damage aimed at batch appends, judged against batch boundaries known to the harness",
+         "Focused batch workloads (1..64 self-identifying records, up to 3 files, interleaved truncations); every effect boundary and frame-relative torn write, and every batch frame x {payload, checksum, length, type} damage; each batch must be recovered as nothing, everything, or a hole-free suffix ending at its last record with its missing head at or below an issued truncate position.",
+         "No model, no snapshot equality; records >= 16 bytes identify their batch; no deletions in this workload so positions are unique.", "4/C12", "driver+iotrace"),
+ "C13": ("exploration", "runtime monitor: syscall-trace window + snapshot/disk/content equality around every rejected or no-op call, and after an immediate restart",
+         "Eight rejected/no-op shapes inserted at random points of histories under all six policies; the call's trace window (plus a trailing flush) must contain no mutating syscall, state, disk usage and WAL bytes must be unchanged, wal_bytes_written 0, and a restart must reproduce the pre-call state.",
+         "Buffers are drained with persist(Flush) before the window so lazy policies cannot hide a write.", "4/C13", "driver+iotrace"),
+ "C14": ("exploration", "runtime monitor: lock-step differential of one history across six persist policies (no reference model)",
+         "Outcomes (positions, eviction counts, error variants) and full observable states of six logs are compared after every call and restart; at the end every directory is reopened under a different policy.",
+         "Byte counts excluded (not in the statement); OnDelay(0) exercises the timed path.", "4/C14", "driver"),
+ "C15": ("exploration", "runtime monitor: reported wal_bytes_written vs bytes of write syscalls on WAL files inside the call's trace window",
+         "Exact per-call equality under Always policies (all alignments, padding sizes, roll-over inside the call, GC position records), cumulative equality at drained points under lazy policies.",
+         "Bytes written by open()'s own GC pass are not surfaced by the API and are excluded.", "4/C15", "driver+iotrace"),
+ "C16": ("exploration", "runtime monitor: resource_usage() inequalities against quantities computed from the observed snapshot after every call",
+         "P+N <= used <= P+N+64R, used <= allocated, truncation releases what it evicts, names-only baseline when all queues are empty; payloads from 0 to hundreds of KiB; release and dev-profile builds.",
+         "'small constant per record' taken as <= 64 bytes.", "4/C16", "driver"),
+ "C17": ("exploration", "runtime monitor: path filter on every traced syscall + type/size/content hash of seeded foreign entries + differential against a clean-directory twin",
+         "Histories with roll-over and GC run next to near-miss names, sub-directories and symlinks named like WAL files, ordinary files; WAL files are renumbered with gaps at some restarts; every path-carrying syscall must name a regular wal-<20 digits> file, foreign entries must be byte-identical after every call, and behaviour must equal the clean twin's.",
+         "Entries named exactly like WAL files are placed only at numbers the log never creates.", "4/C17", "driver+iotrace"),
+ "C18": ("exploration", "runtime monitor: metamorphic comparison of a k-queue history with its per-queue projections, live, across restarts and after crash recovery",
+         "Each queue's outcomes and exists/range/last_position in the full run must equal those of the projected run at every own call and every restart; crash images of the full run inside calls addressed to other queues must recover every other queue exactly as projected.",
+         "Model-free; C02's tolerance applies to the queue addressed by the in-flight call, which is skipped.", "4/C18", "driver+iotrace"),
+})
+
 NOT_YET = {
 }
 
